@@ -41,6 +41,20 @@ theorem merged_nodes_same_name_of_accepted (s : Schema) (doc : Document) (hcov :
   fun p hp => ((execUniform_of_accepted s doc hcov hside hcyc huniq hov opName inputs w
     op name vars dirs sel loc root v hsel hroot hv 1) p hp).1
 
+/-- the "identical arguments" half of the rule, one level: the field nodes merged under one response key at the top
+of the selected operation have identical argument sets (structural equality of values, locations ignored) -/
+theorem merged_nodes_same_args_of_accepted (s : Schema) (doc : Document)
+    (hside : sideB s doc = true) (hcyc : noFragmentCycles s doc = []) (huniq : uniqueFragNames doc = true)
+    (hov : overlappingFieldsCanBeMerged s doc = []) (opName : String) (w : Exec.World)
+    {op : OpType} {name : Option Name} {vars : List VarDef} {dirs : List Directive} {sel : SelectionSet} {loc : Loc}
+    {root : String} (v : Coerce.Vars)
+    (hsel : Exec.selectOperation doc opName = .ok (.operation op name vars dirs sel loc))
+    (hroot : s.rootFor op.toString = some root) :
+    ∀ p, p ∈ (Exec.collect ⟨s, doc.fragments, v, w⟩ root sel ([], [])).1 → ∀ n m, n ∈ p.2 → m ∈ p.2 →
+      sameArgsS n.args m.args = true :=
+  merged_same_args_of_noConflict s doc (of_decide_eq_true huniq)
+    (accepted_document_has_no_conflict s doc hside hcyc huniq hov) opName w v hsel hroot
+
 /-- **normalized_transparent without the `ExecUniform` premise**: for a document accepted by the three rules the
 normalising plan-cache mode is semantically transparent -/
 theorem normalized_transparent_of_accepted (s : Schema) (hcc : customLti s) (hsch : SchemaOK s) (hcov : SchemaCov s)
